@@ -150,7 +150,7 @@ int main(int argc, char **argv) {
 	// ---- 3. exact distribution of the shuffle generators ------------------------------------------------------------
 	if (want("fy")) {
 		Group G(64, 20, 3);
-		size_t NMAX = T ? 6 : 5;
+		size_t NMAX = T ? 7 : 6;
 		for (size_t n = 1; n <= NMAX; n++) {
 			std::vector<ul> c(n - 1, 0);
 			std::map<std::string, int> seen;
@@ -199,7 +199,7 @@ int main(int argc, char **argv) {
 		Group G(64, 20, 3);
 		size_t ns[] = { 3, 7, 16, 64 };
 		for (size_t n : ns) {
-			size_t m = T ? 40000 : 8000;
+			size_t m = T ? 100000 : 20000;
 			std::vector<std::vector<unsigned> > cnt(n, std::vector<unsigned>(n, 0));
 			std::vector<unsigned> rot(n, 0);
 			for (size_t k = 0; k < m; k++) {
